@@ -274,8 +274,10 @@ def run(ctx):
     ctx.check(bad == 0, "R3.4", "stream_step:lastclock=clock+offset", ss.loc(),
               "the stream's corrected clock is not 'event clock + clock offset' on %d of %d paths" % (bad, len(outs)))
     uc = prog.fn("update_clocks", PL)
+    # the last two: a first event whose corrected clock is exactly 0 is an origin like any other
     for (first, firstclock, last, sclock, want_first, want_delta) in ((1, 0, 0, 100, 100, 0), (0, 100, 100, 130, 100, 30),
-                                                                       (0, 100, 130, 130, 100, 30)):
+                                                                       (0, 100, 130, 130, 100, 30), (1, 0, 0, 0, 0, 0),
+                                                                       (0, 0, 0, 250, 0, 250)):
         ex = absint.Explorer(prog, effects=eff, summaries={
             "stream_lastclock": lambda ex_, st_, a, f, e, s=sclock: [(INT(s), {})]})
         outs = [o for o in ex.run(uc, [PTR("PLY"), PTR("S1")], {
@@ -363,6 +365,26 @@ def run(ctx):
                                          ("SYS", F("system", "nlooms")): INT(1)})
     ctx.check((PTR("S1"), INT(42)) in sets, "R3.4", "init_offsets:stream-gets-its-loom-offset", io.loc(),
               "a stream does not receive the clock offset of its loom (%s)" % (sets,))
+    # every entry of the clock table is applied, whatever its rank column and its position
+    parsed = []
+    ex = absint.Explorer(prog, effects=eff, loop_bound=6, summaries={
+        "clkoff_count": lambda ex_, st_, a, f, e: [(INT(3), {})],
+        "clkoff_get": lambda ex_, st_, a, f, e: [(PTR("E%d" % a[1][1]) if a[1][0] == "int" else TOP, {})],
+        "parse_clkoff_entry": lambda ex_, st_, a, f, e, parsed=parsed: (parsed.append(a[1]), [(INT(0), {})])[1],
+        "system_get_lpt": lambda ex_, st_, a, f, e: [(NULL, {})],
+        "stream_clkoff_set": lambda ex_, st_, a, f, e: [(INT(0), {})]})
+    st3 = {("TR", F("trace", "streams")): NULL, ("SYS", F("system", "nlooms")): INT(3),
+           ("SYS", F("system", "looms")): PTR("L1")}
+    for k_ in range(3):
+        st3[("E%d" % k_, F("clkoff_entry", "index"))] = INT(k_)
+        st3[("E%d" % k_, F("clkoff_entry", "median"))] = INT(4050 + k_)
+        st3[("E%d" % k_, F("clkoff_entry", "name"))] = ("str", "host%d" % k_)
+    outs3 = [o for o in ex.run(io, [PTR("SYS"), PTR("TR")], st3) if o.kind == "ret" and o.ret == INT(0)]
+    ctx.need(outs3, "init_offsets: no successful path with a clock table of three entries")
+    miss = [k_ for k_ in range(3) if PTR("E%d" % k_) not in parsed]
+    ctx.check(not miss, "R3.4", "init_offsets:every-table-entry-applied", io.loc(),
+              "entries %s of a clock table of 3 (rank column 0, 1, 2, all with a non-zero offset) are never handed to "
+              "parse_clkoff_entry: the streams of that host are replayed with uncorrected clocks" % miss)
 
     # ---- R3.5 -------------------------------------------------------------------------------------
     ins = prog.fn("heap_insert", "src/include/heap.h")
